@@ -508,53 +508,25 @@ func ruleDelKeys(p *Prog, r *Result) {
 			arg := s.Instr.(ssa.CallInstruction).Common().Args[0]
 			bad := ""
 			for root := range sliceRoots(arg) {
-				mk, ok := root.(*ssa.MakeSlice)
-				if !ok {
-					bad = "the key list is not built from the fetched batch in this function"
-					continue
-				}
-				// length = len(fetched rows)
-				R := lenOf(mk.Len)
-				if R == nil || !isFetched(p, R) {
-					// allow n := len(rows) via the same value
-					bad = "the key list does not have the length of the fetched batch"
-				}
-				nst := 0
-				for _, ref := range *mk.Referrers() {
-					ia, ok := ref.(*ssa.IndexAddr)
-					if !ok {
-						continue
-					}
-					for _, r2 := range *ia.Referrers() {
-						st, ok := r2.(*ssa.Store)
-						if !ok {
-							continue
-						}
-						nst++
-						// value = rows[i].Key with same i
-						okv := false
-						backward(st.Val, func(x ssa.Value) bool {
-							if o, f, base, isF := loadedField(x); isF && o != nil && o.Obj().Name() == "KVPair" && f == "Key" {
-								// base is an element of the fetched rows with index ia.Index
-								_ = base
-								okv = elementOfFetched(p, base, ia.Index) || elementOfFetched(p, x, ia.Index)
-								return false
-							}
-							if fa, isFA := x.(*ssa.FieldAddr); isFA {
-								if _, f, base, _ := fieldOfAddr(fa); f == "Key" {
-									okv = elementOfFetched(p, base, ia.Index)
-									return false
+				isRows := func(v ssa.Value) bool { return isFetched(p, v) }
+				// the collecting loop may live in a helper taking the fetched rows: keys := rowKeys(rows)
+				if c, ok := root.(*ssa.Call); ok {
+					if g := c.Call.StaticCallee(); g != nil && p.InPkg(g) && len(g.Blocks) > 0 && len(c.Call.Args) == 1 && len(g.Params) == 1 && isFetched(p, c.Call.Args[0]) {
+						isRows = func(v ssa.Value) bool { return v == ssa.Value(g.Params[0]) }
+						for _, gb := range g.Blocks {
+							if ret := retOf(gb); ret != nil {
+								for inner := range sliceRoots(retVal(ret, 0)) {
+									if b2 := keysOfRows(p, inner, isRows); b2 != "" {
+										bad = b2 + " (in " + g.Name() + ")"
+									}
 								}
 							}
-							return true
-						})
-						if !okv {
-							bad = "a deleted key is not the Key of the fetched row with the same index"
 						}
+						continue
 					}
 				}
-				if nst == 0 {
-					bad = "the key list is never filled"
+				if b2 := keysOfRows(p, root, isRows); b2 != "" {
+					bad = b2
 				}
 			}
 			r.add(bad == "", key, p.InstrPos(s.Instr), firstNonEmpty(bad, "BatchDelete receives exactly the keys of the fetched rows"))
@@ -563,13 +535,63 @@ func ruleDelKeys(p *Prog, r *Result) {
 	r.floor("mutating sites in DeletePlan", n, 1)
 }
 
-// elementOfFetched: v is (the address of / a load of) element idx of a fetched batch, possibly via a
+// keysOfRows: root is a slice made with the length of the rows and filled with rows[i].Key at index i.
+func keysOfRows(p *Prog, root ssa.Value, isRows func(ssa.Value) bool) string {
+	mk, ok := root.(*ssa.MakeSlice)
+	if !ok {
+		return "the key list is not built from the fetched batch in this function"
+	}
+	bad := ""
+	// length = len(fetched rows)
+	R := lenOf(mk.Len)
+	if R == nil || !isRows(R) {
+		bad = "the key list does not have the length of the fetched batch"
+	}
+	nst := 0
+	for _, ref := range *mk.Referrers() {
+		ia, ok := ref.(*ssa.IndexAddr)
+		if !ok {
+			continue
+		}
+		for _, r2 := range *ia.Referrers() {
+			st, ok := r2.(*ssa.Store)
+			if !ok {
+				continue
+			}
+			nst++
+			// value = rows[i].Key with same i
+			okv := false
+			backward(st.Val, func(x ssa.Value) bool {
+				if o, f, base, isF := loadedField(x); isF && o != nil && o.Obj().Name() == "KVPair" && f == "Key" {
+					okv = elementOfRows(base, ia.Index, isRows) || elementOfRows(x, ia.Index, isRows)
+					return false
+				}
+				if fa, isFA := x.(*ssa.FieldAddr); isFA {
+					if _, f, base, _ := fieldOfAddr(fa); f == "Key" {
+						okv = elementOfRows(base, ia.Index, isRows)
+						return false
+					}
+				}
+				return true
+			})
+			if !okv {
+				bad = "a deleted key is not the Key of the fetched row with the same index"
+			}
+		}
+	}
+	if nst == 0 {
+		bad = "the key list is never filled"
+	}
+	return bad
+}
+
+// elementOfRows: v is (the address of / a load of) element idx of the rows, possibly via a
 // range-copy local variable.
-func elementOfFetched(p *Prog, v ssa.Value, idx ssa.Value) bool {
+func elementOfRows(v ssa.Value, idx ssa.Value, isRows func(ssa.Value) bool) bool {
 	ok := false
 	backward(v, func(x ssa.Value) bool {
 		if ia, isIA := x.(*ssa.IndexAddr); isIA {
-			if isFetched(p, ia.X) && sameIndex(ia.Index, idx) {
+			if isRows(ia.X) && sameIndex(ia.Index, idx) {
 				ok = true
 			}
 			return false
